@@ -3,13 +3,16 @@ import PyndlDriver.OpsCreate
 import PyndlDriver.OpsText
 import PyndlDriver.OpsCorpus
 import PyndlDriver.OpsAct
+import PyndlDriver.OpsWH
+import PyndlDriver.OpsAttrs
+import PyndlDriver.OpsBand
 
 open Lean
 
 namespace PyndlDriver
 
 def plugins : List (String → Json → Option (M Json)) :=
-  [handleCreate?, handleText?, handleCorpus?, handleAct?]
+  [handleCreate?, handleText?, handleCorpus?, handleAct?, handleWH?, handleAttrs?, handleBand?]
 
 def handlePlugin? (op : String) (j : Json) : Option (M Json) :=
   plugins.findSome? (fun h => h op j)
